@@ -201,4 +201,12 @@ theorem importAll_two (g : Graph) (s0 : State) (U : Mod → Prop) (a m : Mod)
         · rfl
         · exact ih hrest e he
 
+theorem cold_of_optOk (g : Graph) (r : Mod) (skip : Mod → Bool) (p : Mod × List Mod)
+    (h : optOk g r skip p = true) :
+    ∀ k ∈ optKinds g p.1, ∀ m ∈ p.2, skip m = false → (cold (g.withOpt p.1 k) m).2 = none := by
+  intro k hk m hm hs
+  unfold optOk at h
+  simp only [List.all_eq_true] at h
+  exact cold_of_chunk (g.withOpt p.1 k) r skip p.2 (h k hk) m hm hs
+
 end Ioflo.Imports
